@@ -240,3 +240,20 @@ def dec_and_test_atom(a, rec=None, field=None):
         if op and op[0] == 'dec' and a.op == '==' and cval(unwrap(y)) == 1:
             return True
     return False
+
+
+def const_leaves(e):
+    """possible constant values of an expression built from constants and
+    ?: ; None when some leaf is not a constant"""
+    e = unwrap(e)
+    if not isinstance(e, dict):
+        return None
+    c = cval(e)
+    if c is not None:
+        return {c}
+    if e.get('k') == 'cond':
+        a, b = const_leaves(e['t']), const_leaves(e['f'])
+        if a is None or b is None:
+            return None
+        return a | b
+    return None
